@@ -53,6 +53,64 @@ class Laws:
         self.bad.setdefault(f"{name}:accepted", "no error raised")
 
 
+def snapshot(obj):
+    """Bytes of every array a container holds (recursively), to detect operations that modify an operand."""
+    if obj is None:
+        return b"-"
+    if isinstance(obj, np.ndarray):
+        return obj.tobytes() + repr(obj.shape).encode()
+    if hasattr(obj, "to_dict") and not hasattr(obj, "counts") and not hasattr(obj, "samples") and not hasattr(obj, "sum_weights1"):
+        return b"|".join(k.encode() + snapshot(v) for k, v in sorted(obj.to_dict().items()))  # CorrFunc
+    parts = [snapshot(obj.binning.edges)] if hasattr(obj, "binning") else []
+    for name in ("counts", "sum_weights", "sum_weights1", "sum_weights2", "data", "samples", "edges"):
+        if hasattr(obj, name):
+            parts.append(name.encode() + snapshot(getattr(obj, name)))
+    return b"|".join(parts)
+
+
+def laws_inplace(L, tag, items, plus, minus=None, from_zero=True):
+    """Augmented assignment follows the binary operators and never modifies an operand."""
+    a, b = items[0], items[1]
+    before = [snapshot(x) for x in items]
+
+    def iadd():
+        x = a
+        x += b
+        if snapshot(x) != snapshot(plus(a, b)) and snapshot(a) == before[0]:
+            return "x = a; x += b differs from a + b"
+        if snapshot(a) != before[0] or snapshot(b) != before[1]:
+            return "x = a; x += b modified an operand"
+    L.check(f"{tag}.iadd", iadd)
+
+    def accumulate():
+        totals = []
+        for _ in range(2):
+            total = 0 if from_zero else items[0]
+            for it in items[0 if from_zero else 1:]:
+                total += it
+            totals.append(snapshot(total))
+        if [snapshot(x) for x in items] != before:
+            return "accumulating with += modified an operand"
+        if totals[0] != totals[1]:
+            return "accumulating the same containers twice gives different totals"
+        want = items[0]
+        for it in items[1:]:
+            want = plus(want, it)
+        if totals[0] != snapshot(want):
+            return "accumulating with += differs from repeated +"
+    if minus is None:
+        L.check(f"{tag}.accumulate", accumulate)
+    else:
+        def isub():
+            x = a
+            x -= b
+            if snapshot(a) != before[0] or snapshot(b) != before[1]:
+                return "x = a; x -= b modified an operand"
+            if snapshot(x) != snapshot(minus(a, b)):
+                return "x = a; x -= b differs from a - b"
+        L.check(f"{tag}.isub", isub)
+
+
 def eq_arr(a, b):
     return a.shape == b.shape and np.array_equal(a, b, equal_nan=True)
 
@@ -99,7 +157,16 @@ def laws_binwise_patchwise(L, tag, x, get_arr, rng, rebuild):
                 return "closed side lost"
         L.check(f"{tag}.bins[slice]", f)
     if nb >= 3:
-        L.check(f"{tag}.bins[step]", lambda: None if eq_arr(get_arr(x.bins[::2]), full[::2]) else "bins[::2] differs")
+        for st in (slice(None, None, 2), slice(1, None, 2), slice(None, None, 3)):
+            def stepped(st=st):
+                sub = x.bins[st]
+                if not eq_arr(get_arr(sub), full[st]):
+                    return f"bins[{st}] differs from sub-array"
+                # documented: the previous bin expands to encompass the omitted ones
+                want = np.append(x.binning.left[st], x.binning.right[st][-1])
+                if not np.array_equal(sub.binning.edges, want):
+                    return f"bins[{st}] edges {sub.binning.edges.tolist()} != {want.tolist()}"
+            L.check(f"{tag}.bins[step]", stepped)
     L.check(f"{tag}.bins.iter", lambda: None if (
         len(lst := list(x.bins)) == nb and all(eq_arr(get_arr(b), full[i:i + 1]) for i, b in enumerate(lst))
     ) else "iteration over bins differs")
@@ -167,6 +234,8 @@ def laws_counts(L, rng, nb, npatch, auto):
     L.check(f"{tag}.neq-auto", lambda: None if a != PatchedCounts(binning, a.counts, auto=not auto) else "auto ignored by ==")
     L.check(f"{tag}.neq-binning", lambda: None if a != PatchedCounts(flipped, a.counts, auto=auto) else "closed ignored by ==")
     L.check(f"{tag}.immutability", lambda: None if eq_arr((a + b).counts - b.counts, (a.counts + b.counts) - b.counts) else "operands mutated")
+    frozen = {k: snapshot(v) for k, v in (("a", a), ("b", b), ("c", c))}
+    laws_inplace(L, tag, [a, b, c], lambda p, q: p + q)
     laws_binwise_patchwise(L, tag, a, lambda o: o.get_array(), rng, None)
     # commute with sampling
     sps = a.sample_patch_sum()
@@ -178,6 +247,9 @@ def laws_counts(L, rng, nb, npatch, auto):
         L.check(f"{tag}.patches-commute-sum", lambda s=s: None if np.allclose(
             a.patches[s].sample_patch_sum().data, a.counts[:, s, s].sum(axis=(1, 2)), rtol=1e-12, atol=0)
             else f"patches[{s}] does not commute with summation")
+
+    L.check(f"{tag}.operands-unchanged", lambda: None if {k: snapshot(v) for k, v in (("a", a), ("b", b), ("c", c))} == frozen
+            else "an operation of this family modified its operand")
 
     # sum weights
     sw1, sw2 = gen.gen_sum_weights(rng, nb, npatch, auto)
@@ -195,6 +267,16 @@ def laws_counts(L, rng, nb, npatch, auto):
     # normalised counts
     tag = "NormalisedCounts"
     na, nb_ = NormalisedCounts(a, w), NormalisedCounts(b, w)
+    frozen_n = (snapshot(na), snapshot(nb_), snapshot(w))
+
+    def normalised_array():
+        with np.errstate(all="ignore"):
+            want = a.get_array() / w.sample_patch_sum().data[:, np.newaxis, np.newaxis]
+        for _ in range(2):  # an accessor gives the same answer every time
+            if not eq_arr(na.get_array(), want):
+                return "get_array() != counts / total product of the sums of weights"
+    L.check(f"{tag}.get_array", normalised_array)
+    laws_inplace(L, tag, [na, nb_, NormalisedCounts(c, w)], lambda p, q: p + q)
     L.check(f"{tag}.add", lambda: None if eq_arr((na + nb_).counts.counts, a.counts + b.counts) and (na + nb_).sum_weights == w else "a+b differs")
     L.check(f"{tag}.sum", lambda: None if eq_arr(sum([na, nb_, NormalisedCounts(c, w)]).counts.counts, a.counts + b.counts + c.counts) else "sum differs")
     L.raises(f"{tag}.add-other-sum-weights", lambda: na + NormalisedCounts(b, pw))
@@ -212,6 +294,10 @@ def laws_counts(L, rng, nb, npatch, auto):
         L.check(f"{tag}.bins-commute-sample", lambda s=s: None if (
             eq_arr(na.bins[s].sample_patch_sum().data, sps.data[s])
             and eq_arr(na.bins[s].sample_patch_sum().samples, sps.samples[:, s])) else f"bins[{s}] does not commute with sampling")
+    L.check(f"{tag}.sample-repeatable", lambda: None if eq_arr(na.sample_patch_sum().data, sps.data) and eq_arr(na.sample_patch_sum().samples, sps.samples)
+            else "sample_patch_sum() changes after the accessors were used")
+    L.check(f"{tag}.operands-unchanged", lambda: None if (snapshot(na), snapshot(nb_), snapshot(w)) == frozen_n
+            else "an operation of this family modified its operand")
     return a, w
 
 
@@ -237,6 +323,7 @@ def laws_corrfunc(L, rng, nb, npatch, auto):
         parts[k] = gen.gen_normalised_counts(rng, cf.binning, npatch, auto, sum_weights=nc.sum_weights, sparsity=0.0)
     cf2 = CorrFunc(**parts)
     tag = "CorrFunc"
+    frozen = (snapshot(cf), snapshot(cf2))
     L.check(f"{tag}.add", lambda: None if all(
         eq_arr(getattr(cf + cf2, k).counts.counts, getattr(cf, k).counts.counts + getattr(cf2, k).counts.counts)
         for k in cf.to_dict()) and set((cf + cf2).to_dict()) == set(cf.to_dict()) else "a+b differs")
@@ -297,6 +384,16 @@ def laws_corrfunc(L, rng, nb, npatch, auto):
     L.check(f"{tag}.patches.iter", lambda: None if len(list(cf.patches)) == npatch else "wrong number of patches iterated")
     L.raises(f"{tag}.bins[out-of-range]", lambda: cf.bins[nb])
     L.raises(f"{tag}.patches[out-of-range]", lambda: cf.patches[npatch])
+    laws_inplace(L, tag, [cf, cf2, cf], lambda p, q: p + q, from_zero=False)
+
+    def accessors_then_sample():
+        for k, nc in cf.to_dict().items():
+            nc.get_array(), nc.counts.get_array(), nc.sum_weights.get_array(), nc.sample_patch_sum()
+        again = cf.sample()
+        if not (eq_arr(again.data, ref.data) and eq_arr(again.samples, ref.samples)):
+            return "sample() differs after the pair-count accessors were used"
+    L.check(f"{tag}.sample-repeatable", accessors_then_sample)
+    L.check(f"{tag}.operands-unchanged", lambda: None if (snapshot(cf), snapshot(cf2)) == frozen else "an operation modified its operand")
 
 
 def laws_sampled(L, rng, nb):
@@ -342,6 +439,10 @@ def laws_sampled(L, rng, nb):
         L.check(f"{tag}.bins.iter-twice", lambda: None if (len(list(sel)), len(list(sel))) == (nb, nb) else "second iteration of the same selector differs")
         L.raises(f"{tag}.bins[out-of-range]", lambda: a.bins[nb])
         L.raises(f"{tag}.bad-shape", lambda: cls(a.binning, a.data[:-1] if nb > 1 else np.zeros(3), a.samples))
+        frozen = (snapshot(a), snapshot(b))
+        laws_inplace(L, tag, [a, b], lambda p, q: p + q, minus=lambda p, q: p - q)
+        _ = (a.error, a.covariance, a.correlation) if hasattr(a, "correlation") else (a.error, a.covariance)
+        L.check(f"{tag}.operands-unchanged", lambda: None if (snapshot(a), snapshot(b)) == frozen else "an operation modified its operand")
 
 
 def laws_binning(L, rng, nb):
@@ -356,6 +457,11 @@ def laws_binning(L, rng, nb):
     for s in slices:
         lo, hi, _ = s.indices(nb)
         L.check(f"{tag}[slice]", lambda s=s, lo=lo, hi=hi: None if np.array_equal(b[s].edges, b.edges[lo:hi + 1]) else f"[{s}] differs")
+    if nb >= 3:
+        for st in (slice(None, None, 2), slice(1, None, 2), slice(None, None, 3), slice(0, nb - 1, 2)):
+            want = np.append(b.left[st], b.right[st][-1])  # previous bin expands over the omitted ones
+            L.check(f"{tag}[step]", lambda st=st, want=want: None if np.array_equal(b[st].edges, want) and b[st].closed == b.closed
+                    else f"[{st}] edges {b[st].edges.tolist()} != {want.tolist()}")
     L.check(f"{tag}.iter", lambda: None if [x.edges.tolist() for x in b] == [b.edges[i:i + 2].tolist() for i in range(nb)] else "iteration differs")
     L.check(f"{tag}.eq", lambda: None if b == b and b == b.copy() and b == copy.deepcopy(b) and len(b) == nb else "b != b")
     L.check(f"{tag}.neq", lambda: None if b != Binning(b.edges + 1e-9, closed=b.closed)
